@@ -269,6 +269,9 @@ func runC20(c *fw.Ctx) {
 		}
 	}
 	c20Extra = extra
+	if c.Shard == 0 {
+		c20Big(c)
+	}
 	c.R.Bounds["grid"] = "layouts L3-L10 + every 3rd small two-level layout x max {0,1,7,100} x fill on/off x every phase in [0, coarsest step) in two eras (today, after 2038) x destination absent/existing x 3 (method, xff) pairs; rand answers: all 3^d for d<=6 draws, else <=2 deviations + all 2^d over {0,n-1} for d<=12"
 	for ti, tag := range tags {
 		ld := c20Layout(tag)
@@ -337,6 +340,25 @@ func runC20(c *fw.Ctx) {
 						one(k)
 					}
 				}
+			}
+		}
+	}
+}
+
+// c20Big: an archive of more than 2048 slots (several pages, more points than any plausible write batch)
+func c20Big(c *fw.Ctx) {
+	tag := "S1s:2100s,300s:6000s"
+	ld := c20Layout(tag)
+	for _, ph := range []int64{0, 7, 299} {
+		for _, ans := range [][]int{nil, {1, 2, 1}} {
+			k := c20Case{Layout: tag, Method: 2, XFF: 0, Max: 7, Fill: true, Now: EraMid - EraMid%Period(ld.Archs) + ph, Answers: ans}
+			sig, desc, _, nt := c20Eval(c, k)
+			c.Count("evaluations", 1)
+			if nt {
+				c.Count("distinct_nontrivial", 1)
+			}
+			if sig != "" {
+				c.Violate(sig, desc, 5000+int(ph), k, "")
 			}
 		}
 	}
